@@ -112,6 +112,9 @@ def run(ctx):
     for _ in range(n):
         tr = P.gen_truth(ctx.rng)
         one(ctx, tr, ctx.rng.choice([1.0, 0.5, 2.0, 2.5]))
+    for _ in range(2 if ctx.tier == "quick" else 30):
+        # tens of intervals in each curve
+        one(ctx, P.gen_truth(ctx.rng, n_events=ctx.rng.randint(20, 35)), ctx.rng.choice([1.0, 2.0, 2.5]))
     for _ in range(2 if ctx.tier == "quick" else 20):
         fresh_process_workflow(ctx, P.gen_truth(ctx.rng, noise=ctx.rng.choice([0.0, 0.4])), ctx.rng.choice([1.0, 0.5, 2.0]))
 
